@@ -222,8 +222,9 @@ OuterLoop:
 
 			url.Init()
 			rl.bindPolicyToURL(url)
+			// the previous generation keeps its reference: requests that are
+			// still running on it must be able to use the limiter.
 			url.rl = prev.rl
-			prev.rl = nil
 			rl.setStateListenerForURL(url)
 			continue OuterLoop
 		}
